@@ -19,6 +19,10 @@ use framework::Tier;
 
 fn main() {
     let args: Vec<String> = std::env::args().collect();
+    if args.get(1).map(String::as_str) == Some("__loop-child") {
+        framework::install_panic_hook();
+        std::process::exit(props::c17_loop::child_main(&args[2..]));
+    }
     let Some(prop) = args.get(1).cloned() else {
         eprintln!("usage: vcheck <Cxx> [--tier quick|thorough] [--seed N] [--only I]");
         std::process::exit(2);
@@ -69,8 +73,8 @@ fn main() {
         "C10" => props::c10::run(tier, seed, only),
         "C11" => props::c11::run(tier, seed, only.and_then(|s| s.parse().ok())),
         "C16" => props::c16::run(tier, seed, only),
-        "C17" => props::c17::run(tier, seed, only.and_then(|s| s.parse().ok()), props::c17::Which::Crash),
-        "C18" => props::c17::run(tier, seed, only.and_then(|s| s.parse().ok()), props::c17::Which::Privacy),
+        "C17" => props::c17::run(tier, seed, only, props::c17::Which::Crash),
+        "C18" => props::c17::run(tier, seed, only, props::c17::Which::Privacy),
         "C19" => props::c19::run(tier, seed, only.and_then(|s| s.parse().ok())),
         "C20" => props::c20::run(tier, seed, only.and_then(|s| s.parse().ok())),
         "C07" => props::c07::run(tier, seed, only),
